@@ -241,6 +241,7 @@ func c10(c *an.Check) {
 			an.FuncName(enc) + ": bounds buf[:n]": "n is the sum of two PutUvarint counts (<= 2*MaxVarintLen64) and a copy count (<= len(digest)), which is at most the allocated length",
 		}})
 	}
+	thoroughCallers(c, "peer id parsing", 0, []string{"peer", "util/confparse", "crypto"}, an.R("peer", "", "IDB58Decode"), an.R("peer", "", "IDFromBytes"), an.R("peer", "ID", "ExtractPublicKey"))
 	c.Trust("encoding/binary.Uvarint: n>0 implies n<=len(buf)", "github.com/mr-tron/base58 Decode never panics", "crypto.UnmarshalPublicKey totality is decided under C11")
 }
 
